@@ -76,8 +76,12 @@ func newEventFromUntrustedJSONV3(eventJSON []byte, roomVersion IRoomVersion) (PD
 	// Synapse removes these keys from events in case a server accidentally added them.
 	// https://github.com/matrix-org/synapse/blob/v0.18.5/synapse/crypto/event_signing.py#L57-L62
 	for _, key := range []string{"outlier", "destinations", "age_ts", "unsigned", "event_id"} {
-		if eventJSON, err = sjson.DeleteBytes(eventJSON, key); err != nil {
-			return nil, err
+		// sjson.DeleteBytes removes one member: a member that is written twice has to go twice
+		for n := -1; n != len(eventJSON) && gjson.GetBytes(eventJSON, key).Exists(); {
+			n = len(eventJSON)
+			if eventJSON, err = sjson.DeleteBytes(eventJSON, key); err != nil {
+				return nil, err
+			}
 		}
 	}
 
@@ -88,6 +92,9 @@ func newEventFromUntrustedJSONV3(eventJSON []byte, roomVersion IRoomVersion) (PD
 		// the JSON text "null" unmarshals into a nil pointer
 		return nil, fmt.Errorf("gomatrixserverlib NewEventFromUntrustedJSON: event is not a JSON object")
 	}
+	// "unsigned" was dropped above; a member under another spelling that encoding/json also
+	// decodes into this field (Unsigned, UNSIGNED) is not the receiver's own either
+	res.eventFields.Unsigned = nil
 	// In this event format the event ID is the reference hash of the event: it is never read
 	// from the JSON (a member "event_id", under any spelling encoding/json accepts).
 	res.EventIDRaw = ""
